@@ -363,3 +363,20 @@ def cpu_count(*a, **k):
 
 GLOBAL_STUBS.update({"Parallel": Parallel, "delayed": delayed, "cpu_count": cpu_count})
 STUB_CONTRACTS.update({"joblib": "Parallel(...)(delayed(f)(x) for x in xs) == [f(x) for x in xs]; cpu_count() = a small constant"})
+
+
+def check_classification_targets(y):
+    """sklearn.utils.multiclass.check_classification_targets by contract: integer / string / boolean targets are
+    classification targets; float targets must be integral"""
+    y = asnd(y)
+    if y._dt.kind == "f":
+        for v in raw(y).reshape(-1):
+            if is_sym(v):
+                raise Unencodable("check_classification_targets on symbolic floats")
+            if _np.isfinite(v) and float(v) != int(v):
+                raise ValueError("Unknown label type: continuous. Maybe you are trying to fit a classifier, which expects "
+                                 "discrete classes on a regression target with continuous values.")
+
+
+GLOBAL_STUBS["check_classification_targets"] = check_classification_targets
+STUB_CONTRACTS["check_classification_targets"] = check_classification_targets.__doc__
